@@ -100,7 +100,7 @@ func ruleDial(c *Ctx) {
 		if depth > 4 {
 			return false
 		}
-		g, _ := p.AllFrom(v, eng.Plain, func(x ssa.Value) bool {
+		g, _ := p.AllFrom(v, eng.OriginOpts{ThroughConvert: true}, func(x ssa.Value) bool {
 			if eng.IsFieldLoad(x, shT, dialField) {
 				return true
 			}
@@ -119,7 +119,7 @@ func ruleDial(c *Ctx) {
 				for _, s := range sites {
 					arg := s.Ins.(ssa.CallInstruction).Common().Args[idx]
 					// a closure converted to a dialer type whose own dials are all on the field
-					okArg, _ := p.AllFrom(arg, eng.Plain, func(y ssa.Value) bool {
+					okArg, _ := p.AllFrom(arg, deepF, func(y ssa.Value) bool {
 						mc, ok := y.(*ssa.MakeClosure)
 						if !ok {
 							return false
@@ -189,92 +189,127 @@ func ruleDial(c *Ctx) {
 			c.CheckAt("DIAL", "dialer-store:"+short(st.Fn), st.Ins, false, "the handler's dialer is replaced outside its constructor and SetTargetDialer")
 		}
 	}
-	// the default: defaultDialer = makeValidatingTCPStreamDialer(onet.RequirePublicIP) in the package initializer
-	okInit := false
-	var mk *ssa.Function
-	for f := range p.All {
-		if f.Name() != "init" || eng.PkgPathOf(f) != eng.Mod+"/service" {
+	// the default dialer, by role: the global loaded by the constructor is initialised (in a package initializer) with a dialer
+	// whose net.Dialer.Control hook is a closure that returns, on every return, the verdict of RequirePublicIP on the IP parsed
+	// from the address being connected
+	var defaults []*ssa.Global
+	for _, st := range p.FieldStores(shT, dialField) {
+		if !st.Fresh || st.Val == nil {
 			continue
 		}
-		for _, b := range f.Blocks {
-			for _, ins := range b.Instrs {
-				st, ok := ins.(*ssa.Store)
-				if !ok {
-					continue
+		for _, o := range p.Origins(st.Val, eng.Plain) {
+			if u, ok := o.(*ssa.UnOp); ok {
+				if g, ok := u.X.(*ssa.Global); ok {
+					defaults = append(defaults, g)
 				}
-				g, ok := st.Addr.(*ssa.Global)
-				if !ok || g.Name() != "defaultDialer" {
-					continue
-				}
-				if call, ok := st.Val.(*ssa.Call); ok {
-					if fn, ok := call.Call.Args[0].(*ssa.Function); ok && eng.Short(fn.String()) == "net.RequirePublicIP" {
-						okInit = true
-						mk = call.Call.StaticCallee()
+			}
+		}
+	}
+	if !c.Floor("DIAL", "package-level default dialers installed by the constructor", len(defaults), 1) {
+		return
+	}
+	isRequirePublic := func(v ssa.Value) bool {
+		fn, ok := v.(*ssa.Function)
+		return ok && eng.Short(fn.String()) == "net.RequirePublicIP"
+	}
+	for _, g := range defaults {
+		// the initial value
+		var initVal ssa.Value
+		for f := range p.All {
+			if !strings.HasPrefix(f.Name(), "init") || eng.PkgPathOf(f) != eng.Mod+"/service" {
+				continue
+			}
+			for _, b := range f.Blocks {
+				for _, ins := range b.Instrs {
+					if st, ok := ins.(*ssa.Store); ok && st.Addr == ssa.Value(g) {
+						initVal = st.Val
 					}
-					if cv, ok := call.Call.Args[0].(*ssa.ChangeType); ok {
-						if fn, ok := cv.X.(*ssa.Function); ok && eng.Short(fn.String()) == "net.RequirePublicIP" {
-							okInit = true
-							mk = call.Call.StaticCallee()
+				}
+			}
+		}
+		if initVal == nil {
+			c.Check("DIAL", "default-dialer:"+g.Name()+":initialised", "-", false, "the default dialer global is not initialised in the package initializer")
+			continue
+		}
+		// other writers of the global
+		for _, f := range p.Fns {
+			if strings.HasPrefix(f.Name(), "init") && f.Parent() == nil {
+				continue
+			}
+			for _, b := range f.Blocks {
+				for _, ins := range b.Instrs {
+					if st, ok := ins.(*ssa.Store); ok && st.Addr == ssa.Value(g) {
+						c.CheckAt("DIAL", "default-dialer:"+g.Name()+":not-reassigned", st, false, "the package default dialer is reassigned at run time")
+					}
+				}
+			}
+		}
+		// Control hooks reachable from the initial value: stores into net.Dialer.Control on objects the value derives from
+		var hooks []*ssa.Function
+		for _, f := range p.FnsIn("service") {
+			for _, b := range f.Blocks {
+				for _, ins := range b.Instrs {
+					st, ok := ins.(*ssa.Store)
+					if !ok {
+						continue
+					}
+					fa, ok := st.Addr.(*ssa.FieldAddr)
+					if !ok {
+						continue
+					}
+					if t, fl, _, ok := eng.FieldOf(fa); !ok || t != "net.Dialer" || fl != "Control" {
+						continue
+					}
+					// the dialer object being filled flows to the initial value of the global
+					obj := baseRoot(fa.X)
+					for x := fa.X; ; {
+						if inner, ok := x.(*ssa.FieldAddr); ok {
+							x = inner.X
+							obj = x
+							continue
+						}
+						break
+					}
+					if !p.AnyFrom(initVal, deepF, func(v ssa.Value) bool { return v == obj }) {
+						continue
+					}
+					for _, o := range p.Origins(st.Val, deepF) {
+						if mc, ok := o.(*ssa.MakeClosure); ok {
+							hooks = append(hooks, mc.Fn.(*ssa.Function))
+						}
+						if fn, ok := o.(*ssa.Function); ok {
+							hooks = append(hooks, fn)
 						}
 					}
 				}
 			}
 		}
-	}
-	c.Check("DIAL", "default-dialer-validates-with-RequirePublicIP", "-", okInit, "the package default dialer is not built by the validating constructor applied to RequirePublicIP")
-	if mk == nil {
-		return
-	}
-	// the Control literal
-	var ctl *ssa.Function
-	for _, a := range mk.AnonFuncs {
-		if a.Signature.Params().Len() == 3 {
-			ctl = a
-		}
-	}
-	if ctl == nil {
-		c.Check("DIAL", short(mk)+":control-hook", p.Pos(mk.Pos()), false, "the validating dialer has no net.Dialer.Control hook")
-		return
-	}
-	// the literal is stored into the Control field of the net.Dialer inside a transport.TCPDialer that is returned
-	okCtl := false
-	for _, b := range mk.Blocks {
-		for _, ins := range b.Instrs {
-			if st, ok := ins.(*ssa.Store); ok {
-				if fa, ok := st.Addr.(*ssa.FieldAddr); ok {
-					if t, fl, _, ok := eng.FieldOf(fa); ok && t == "net.Dialer" && fl == "Control" {
-						if mc, ok := st.Val.(*ssa.MakeClosure); ok && mc.Fn == ssa.Value(ctl) {
-							okCtl = true
-						}
+		c.Check("DIAL", "default-dialer:"+g.Name()+":has-control-hook", "-", len(hooks) >= 1, "the default dialer has no net.Dialer.Control hook: resolved addresses are not validated right before connecting")
+		for _, ctl := range hooks {
+			for i, r := range eng.Returns(ctl) {
+				good, bad := p.AllFrom(r.Results[0], eng.Plain, func(v ssa.Value) bool {
+					call, ok := v.(*ssa.Call)
+					if !ok || !isIPValidatorCall(call) {
+						return false
 					}
-				}
+					// the validator applied is RequirePublicIP
+					isRP, _ := p.AllFrom(call.Call.Value, deepF, isRequirePublic)
+					if !isRP {
+						return false
+					}
+					pi, ok := p.Resolve(call.Call.Args[0]).(*ssa.Call)
+					if !ok || eng.CalleeName(&pi.Call) != "net.ParseIP" {
+						return false
+					}
+					hp, idx, ok := eng.AsResult(p.Resolve(pi.Call.Args[0]))
+					if !ok || idx != 0 || eng.CalleeName(&hp.Call) != "net.SplitHostPort" {
+						return false
+					}
+					return eng.IsParam(p.Resolve(hp.Call.Args[0]), ctl, 1)
+				})
+				c.CheckAt("DIAL", fmt.Sprintf("%s:return#%d-is-RequirePublicIP(ParseIP(host of address))", short(ctl), i), r, good, "the Control hook of the default dialer can return something other than RequirePublicIP's verdict on the IP of the address being connected (e.g. nil, another validator, or a verdict on a different string): "+valsStr(p, bad))
 			}
 		}
-	}
-	c.Check("DIAL", short(mk)+":hook-installed-as-Dialer.Control", p.Pos(mk.Pos()), okCtl, "the validation closure is not installed as net.Dialer.Control of the returned dialer")
-	for i, r := range eng.Returns(ctl) {
-		good, bad := p.AllFrom(r.Results[0], eng.Plain, func(v ssa.Value) bool {
-			call, ok := v.(*ssa.Call)
-			if !ok || call.Call.StaticCallee() != nil || call.Call.IsInvoke() {
-				return false
-			}
-			// validator = free variable bound to mk's parameter
-			isVal := p.AnyFrom(call.Call.Value, eng.Plain, func(x ssa.Value) bool { _, isP := baseRoot(x).(*ssa.Parameter); return isP })
-			if !isVal {
-				return false
-			}
-			// argument: net.ParseIP(host) with host from net.SplitHostPort(address param)
-			pi, ok := p.Resolve(call.Call.Args[0]).(*ssa.Call)
-			if !ok || eng.CalleeName(&pi.Call) != "net.ParseIP" {
-				return false
-			}
-			hp, idx, ok := eng.AsResult(p.Resolve(pi.Call.Args[0]))
-			if !ok || idx != 0 || eng.CalleeName(&hp.Call) != "net.SplitHostPort" {
-				return false
-			}
-			return eng.IsParam(p.Resolve(hp.Call.Args[0]), ctl, 1)
-		})
-		c.CheckAt("DIAL", fmt.Sprintf("%s:return#%d-is-validator(ParseIP(host of address))", short(ctl), i), r, good, "the Control hook can return something other than the validator's verdict on the IP of the address being connected (e.g. nil, or a verdict on a different string): "+valsStr(p, bad))
 	}
 }
 
